@@ -23,7 +23,7 @@ RULE = ("cases = (decimal places 5..9, extrusion geometry (layer, nozzle, "
         "parameters, rapid, move_absolute, rapid_absolute, polyline/arc paths, "
         "set_distance_mode, set_extrusion_mode, set_axis(E=v), add_hook/"
         "remove_hook of probe hooks, a rewriting hook, a hook that returns a new "
-        "dict with a word left out, and the extrusion hook, move_hook() contexts "
+        "dict with a word left out, a hook that returns an empty mapping, and the extrusion hook, move_hook() contexts "
         "with hooks added/removed inside the block; hooks registered as plain "
         "functions, bound methods (a fresh method object per add/remove), "
         "callable objects or functools.partial); non-trivial = >=3 G1 segments with the "
@@ -52,7 +52,7 @@ def op_strategy(depth=1):
         inner = op_strategy(0)
         ctx = st.fixed_dictionaries({
             "op": st.just("hookctx"),
-            "hook": st.sampled_from(["probe1", "probe2", "rewrite", "extrude", "drop"]),
+            "hook": st.sampled_from(["probe1", "probe2", "rewrite", "extrude", "drop", "strip"]),
             "body": st.lists(inner, max_size=4)})
         return hist.weighted((7, inner), (1, ctx))
     c = hist.small_coord()
@@ -79,9 +79,9 @@ def op_strategy(depth=1):
             lambda m: {"op": "set_extrusion_mode", "mode": m})),
         (2, st.one_of(st.just(0.0), st.floats(min_value=-20, max_value=20)).map(
             lambda e: {"op": "set_axis_E", "E": e})),
-        (3, st.sampled_from(["probe1", "probe2", "rewrite", "extrude", "extrude", "drop"]).map(
+        (3, st.sampled_from(["probe1", "probe2", "rewrite", "extrude", "extrude", "drop", "strip"]).map(
             lambda h: {"op": "add_hook", "hook": h})),
-        (2, st.sampled_from(["probe1", "probe2", "rewrite", "extrude", "drop"]).map(
+        (2, st.sampled_from(["probe1", "probe2", "rewrite", "extrude", "drop", "strip"]).map(
             lambda h: {"op": "remove_hook", "hook": h})),
         (1, st.just({"op": "other_builder"})),
     )
@@ -124,8 +124,14 @@ class Runner:
             self.calls.append(("extrude", tuple(origin), tuple(target), dict(params)))
             return ext(origin, target, params, state)
 
+        def strip(origin, target, params, state):
+            """Returns an EMPTY mapping: every extra word is stripped (an empty
+            mapping is falsy, but it is a result like any other)."""
+            self.calls.append(("strip", tuple(origin), tuple(target), dict(params)))
+            return ParamsDict()
+
         funcs = {"probe1": mk_probe("probe1"), "probe2": mk_probe("probe2"),
-                 "rewrite": rewrite, "extrude": extrude, "drop": drop}
+                 "rewrite": rewrite, "extrude": extrude, "drop": drop, "strip": strip}
         # the same logical hooks in the forms a caller may register them in:
         # plain functions, bound methods (every attribute access makes a new,
         # equal method object), callable objects, functools.partial objects
@@ -146,6 +152,9 @@ class Runner:
 
             def drop(self, o, t, p, st):
                 return funcs["drop"](o, t, p, st)
+
+            def strip(self, o, t, p, st):
+                return funcs["strip"](o, t, p, st)
 
         class Obj:
             def __init__(self, f):
@@ -276,6 +285,8 @@ class Runner:
                 exp = dict(a[3])
                 if a[0] == "drop":
                     exp = {k: v for k, v in exp.items() if k.upper() != "A"}
+                if a[0] == "strip":
+                    exp = {}
                 if a[0] == "rewrite":
                     exp["Q"] = 7.5
                     if exp.get("F") is not None:
@@ -293,6 +304,8 @@ class Runner:
                 last = dict(chunk[-1][3])
                 if chunk[-1][0] == "drop":
                     last = {k: v for k, v in last.items() if k.upper() != "A"}
+                if chunk[-1][0] == "strip":
+                    last = {}
                 if chunk[-1][0] == "rewrite":
                     last["Q"] = 7.5
                     if last.get("F") is not None:
@@ -325,6 +338,12 @@ class Runner:
             if "extrude" in self.installed:
                 after_ext = self.installed[self.installed.index("extrude") + 1:]
                 ew = next((w for w in words if w.letter == "E"), None)
+                if "strip" in after_ext:
+                    # a later hook strips every word, the E of the extrusion hook too
+                    if ew is not None:
+                        raise Violation(f"{op!r} segment #{i}: {raw!r} carries E although a "
+                                        "hook after the extrusion hook returned an empty mapping")
+                    continue
                 if ew is None:
                     raise Violation(f"{op!r} segment #{i}: no E word in {raw!r} with the "
                                     "extrusion hook installed")
